@@ -5,6 +5,7 @@ import (
 	"os"
 	"path/filepath"
 	"runtime"
+	"sort"
 	"strings"
 )
 
@@ -124,9 +125,23 @@ func checkpath(file string) string {
 
 	privfile := file
 	if IsAnyBitsSet(Lprivacypath) {
-		for k, v := range knownPathMap {
+		// walk the table in a fixed order - the longest (most specific)
+		// prefix first - instead of Go's random map order: a file below two
+		// mappings (a project below $HOME: "~" and ".") used to be reported
+		// differently from one record to the next
+		keys := make([]string, 0, len(knownPathMap))
+		for k := range knownPathMap {
+			keys = append(keys, k)
+		}
+		sort.Slice(keys, func(i, j int) bool {
+			if len(keys[i]) != len(keys[j]) {
+				return len(keys[i]) > len(keys[j])
+			}
+			return keys[i] < keys[j]
+		})
+		for _, k := range keys {
 			if strings.HasPrefix(privfile, k) {
-				privfile = strings.ReplaceAll(privfile, k, v)
+				privfile = strings.ReplaceAll(privfile, k, knownPathMap[k])
 			}
 		}
 
